@@ -100,7 +100,69 @@ def _H3():
     return H
 
 
+# argument objects that live across calls: "the same arguments" are very often the same objects
+_K1 = {i: 2 for i in range(6)}
+_K2 = {i: 3 for i in range(4)}
+_G1 = {i: i % 2 for i in range(6)}
+_G2 = {i: i % 2 for i in range(4)}
+_OMEGA = np.array([[5.0, 1.0], [1.0, 5.0]])
+_PMAT = np.array([[0.8, 0.3], [0.3, 0.7]])
+_SIZES = [3, 3]
+_KCFG = {i: 2 for i in range(6)}
+_H0 = []
+
+
+def _same_H():
+    if not _H0:
+        _H0.append(_H())
+    return _H0[0]
+
+
+def _siblings():
+    """other seeded library calls made between the two calls under test (with other inputs and seeds)"""
+    with warnings.catch_warnings():
+        warnings.simplefilter("ignore")
+        K = xgi.Hypergraph([[0, 1, 2, 3], [3, 4, 5], [5, 6], [6, 7, 8, 9]])
+        for f in (lambda: xgi.weighted_barycenter_spring_layout(K, seed=91), lambda: xgi.barycenter_spring_layout(K, seed=92),
+                  lambda: xgi.random_hypergraph(5, [0.5], seed=93), lambda: xgi.uniform_erdos_renyi_hypergraph(5, 2, 1, seed=94),
+                  lambda: xgi.random_simplicial_complex(5, [0.5, 0.5], seed=95), lambda: xgi.shuffle_hyperedges(K, 2, 0.5, seed=96),
+                  lambda: xgi.pairwise_spring_layout(K, seed=97)):
+            try:
+                f()
+            except Exception:  # noqa: BLE001
+                pass
+
+
+def _use(x):
+    """what a caller does with a result: it owns it and changes it"""
+    try:
+        if isinstance(x, (_xgi.Hypergraph, _xgi.DiHypergraph)):
+            if not x.is_frozen:
+                x.add_node("__mine__")
+                x.remove_nodes_from(list(x.nodes)[:1])
+        elif isinstance(x, dict):
+            for k_ in list(x)[:1]:
+                x[k_] = "__mine__"
+            x["__mine__"] = 0
+        elif isinstance(x, np.ndarray) and x.flags.writeable and x.size:
+            x.flat[0] = 12345
+        elif isinstance(x, list):
+            x.append("__mine__")
+        elif isinstance(x, tuple):
+            for y in x:
+                _use(y)
+    except Exception:  # noqa: BLE001
+        pass
+
+
 RECIPES = {
+    "dcsbm_hypergraph#same_objects": lambda s: xgi.dcsbm_hypergraph(_K1, _K2, _G1, _G2, _OMEGA, seed=s),
+    "chung_lu_hypergraph#same_objects": lambda s: xgi.chung_lu_hypergraph(_K1, _K2, seed=s),
+    "uniform_HSBM#same_objects": lambda s: xgi.uniform_HSBM(6, 2, _PMAT, _SIZES, seed=s),
+    "uniform_hypergraph_configuration_model#same_objects": lambda s: xgi.uniform_hypergraph_configuration_model(_KCFG, 3, seed=s),
+    "barycenter_spring_layout#same_network": lambda s: xgi.barycenter_spring_layout(_same_H(), seed=s),
+    "shuffle_hyperedges#same_network": lambda s: xgi.shuffle_hyperedges(_same_H(), 2, 0.6, seed=s),
+    "uniform_erdos_renyi_hypergraph#p1": lambda s: xgi.uniform_erdos_renyi_hypergraph(7, 3, 1, seed=s),
     "fast_random_hypergraph": lambda s: xgi.fast_random_hypergraph(8, [0.3, 0.2], seed=s),
     "random_hypergraph": lambda s: xgi.random_hypergraph(7, [0.3, 0.2], seed=s),
     "chung_lu_hypergraph": lambda s: xgi.chung_lu_hypergraph({i: 2 for i in range(6)}, {i: 3 for i in range(4)}, seed=s),
@@ -212,7 +274,9 @@ def _worker(args):
                 try:
                     with warnings.catch_warnings():
                         warnings.simplefilter("ignore")
-                        e["digest"] = digest(f(a["s"]))
+                        out_ = f(a["s"])
+                        e["digest"] = digest(out_)
+                        _use(out_)
                 except Exception:  # noqa: BLE001
                     e["digest"] = -1
                 finally:
@@ -220,6 +284,8 @@ def _worker(args):
             elif a["a"] == "draw_py":
                 random.random()
                 random.sample(range(10), 3)
+                if k % 3 == 0:
+                    _siblings()
             elif a["a"] == "draw_np":
                 np.random.rand(3)
                 np.random.randint(0, 10)
